@@ -873,9 +873,11 @@ func canDropLambdaArgs(args []string, call b6.CallExpression, dropped int, funct
 	if _, ok := call.Function.AnyExpression.(b6.CallExpression); ok || mentionsSymbols(call.Function, args) {
 		return false
 	}
-	if symbol, ok := call.Function.AnyExpression.(b6.SymbolExpression); ok && dropped < len(call.Args) {
-		// Variadic functions can't be partially applied
-		if v, ok := functions.IsVariadic(symbol); ok && v {
+	if symbol, ok := call.Function.AnyExpression.(b6.SymbolExpression); ok {
+		// Variadic functions can't be partially applied, and count all of
+		// their variadic arguments as one, so a lambda that passes them
+		// several isn't equivalent to the function itself either
+		if v, ok := functions.IsVariadic(symbol); ok && v && (dropped < len(call.Args) || dropped > 1) {
 			return false
 		}
 	}
